@@ -33,7 +33,7 @@ first = demo_txt.splitlines()[0] if demo_txt else ""
 m = re.search(r"([\w/\.]*zz_seed\w*_test\.go)", first)
 rel = m.group(1) if m else "zz_seed_demo_test.go"
 rel = rel.split("WORKTREE/")[-1]
-rel = re.sub(r"^/tmp/seed-C\d+/", "", rel)
+rel = re.sub(r"^/tmp/seed-C\d+/", "", rel).lstrip("/")
 pkgdir = os.path.dirname(rel)
 pkg = "./" + pkgdir if pkgdir else "."
 d = tempfile.mkdtemp(prefix="seedeval-", dir="/tmp")
